@@ -1,6 +1,6 @@
 (* C14 - Component configuration is a layered deep merge that fully determines the tree. *)
 From Coq Require Import String List Bool.
-From Asphalt Require Import Config.Val Config.MergeSpec Config.MergeProofs Config.CompCfg Config.CompCfgProofs.
+From Asphalt Require Import Config.Val Config.MergeSpec Config.MergeProofs Config.CompCfg Config.CompCfgProofs Gen.Gen_initcomp.
 Import ListNotations.
 Open Scope string_scope.
 Open Scope list_scope.
@@ -76,3 +76,16 @@ Theorem C14_remap : forall ph given dn,
   remap ph given dn = if (match ph with Starting => true | _ => false end) && String.eqb given "default" then dn else given.
 Proof. exact remap_spec. Qed.
 Print Assumptions C14_remap.
+
+(* _init_component as read from the source on this run: `type` and `components` are taken out before the
+   constructor sees the rest; merge_config(hard-coded children, external children) -- the model's merge has its
+   arguments in the order found there --; a child's configuration is None -> {}, or a COPY of the mapping (the
+   caller's object is never written to); the alias is the default type, a string type keeps what precedes its
+   first slash, the default resource name is what follows the alias's first slash *)
+Theorem C14_init_component_in_source :
+  ic_kwargs_exclude_type_and_components = true /\ ic_external_overrides_hardcoded = true /\
+  ic_none_config_is_empty = true /\ ic_child_config_copied = true /\ ic_alias_is_default_type = true /\
+  ic_type_keeps_what_precedes_slash = true /\ ic_default_name_follows_first_slash = true /\
+  ic_children_in_merged_order = true.
+Proof. exact init_component_source_shape. Qed.
+Print Assumptions C14_init_component_in_source.
